@@ -154,6 +154,7 @@ func (node *FamilyNode) SetHusband(individual *IndividualNode) *FamilyNode {
 		DeleteNodesWithTag(node, TagHusband)
 		node.husband = nil
 		node.cachedHusband = true
+		node.resetIndividualCaches()
 		return node
 	}
 	
@@ -180,6 +181,7 @@ func (node *FamilyNode) SetWife(individual *IndividualNode) *FamilyNode {
 		DeleteNodesWithTag(node, TagWife)
 		node.wife = nil
 		node.cachedWife = true
+		node.resetIndividualCaches()
 		return node
 	}
 
@@ -198,6 +200,7 @@ func (node *FamilyNode) SetWifePointer(pointer string) *FamilyNode {
 
 	node.AddNode(newNode(nil, node, TagWife, value, ""))
 	node.cachedWife = false
+	node.resetIndividualCaches()
 
 	return node
 }
@@ -212,8 +215,21 @@ func (node *FamilyNode) SetHusbandPointer(pointer string) *FamilyNode {
 	husbandNode := newNode(nil, node, TagHusband, value, "")
 	node.AddNode(husbandNode)
 	node.cachedHusband = false
+	node.resetIndividualCaches()
 
 	return node
+}
+
+// resetIndividualCaches has to be called when the husband or wife changes
+// because every individual caches its families and spouses.
+func (node *FamilyNode) resetIndividualCaches() {
+	if node.document == nil {
+		return
+	}
+
+	for _, individual := range node.document.Individuals() {
+		individual.resetCache()
+	}
 }
 
 func (node *FamilyNode) resetCache() {
